@@ -18,7 +18,6 @@ func Campaign(o hx.RunOpts, prop string, rule string) error {
 	nprog := o.N(8, 80)
 	for i := 0; i < nprog; i++ {
 		pr := Gen(p.Fork())
-		pr.SepVals = false
 		base, err := Run(ctx, pr, "", 0, txk.None, false)
 		if err != nil {
 			return err
@@ -50,6 +49,16 @@ func Campaign(o hx.RunOpts, prop string, rule string) error {
 }
 
 func emitAndJudge(ctx context.Context, s *hx.Session, ob *Obs, prop, header string) {
+	if ob.Panic != "" && (ob.Res == nil || ob.Res.OpenErr != nil) {
+		s.BeginCase(header + " PANIC")
+		s.Hit("panic")
+		for _, f := range Judge(ob) {
+			if f.Prop == prop {
+				s.Fail(f.Sig, f.What, f.Detail)
+			}
+		}
+		return
+	}
 	Emit(ctx, s, ob, header)
 	s.Hit("runs")
 	if ob.FaultName != "" {
